@@ -18,7 +18,7 @@ ANCHORS = [
     ("pipefunc/map/_load.py", ["load_xarray_dataset", "load_outputs"]),
 ]
 RULE = ("valid map requests of harness/mapgen.py (DAGs of 1..4 structural functions, zip / outer product / ':' "
-        "reductions / trailing internal axes / generators / unmapped functions / tuple outputs, every storage) whose root "
+        "reductions / internal axes at any position / generators / unmapped functions / tuple outputs, every storage) whose root "
         "inputs are 1-D or 2-D with distinct values, plus hand-written corner cases; each with load_intermediate on or "
         "off; both xarray_dataset_from_results and load_xarray_dataset are built from a real run folder; kind 0 compares "
         "variables, dims, values, coordinates, identical(), and .sel() on every single-source 1-D coordinate value; "
@@ -30,7 +30,6 @@ ASSUMPTIONS = [
     "object array of tuples, .sel() building a PandasIndex on the fly for a 1-D non-index coordinate) is library "
     "behaviour: observed on the real objects, not modelled (the property is partial in that sense)",
     "values of the variables are those of C01's model (Model/MapRun.v, sequential semantics) with structural bodies",
-    "internal axes come after all mapped axes of an output (normalize_key(for_dump=True) defect, repaired elsewhere)",
     "unmapped functions return scalars (as in C01's generator); reprs, dtypes and attrs are never compared",
 ]
 TRUSTED = ["Model/XrLabel.v mirrors trace_dependencies/_trace_dependencies/mapspec_axes/_xarray/_xarray_dataset by hand; "
@@ -199,6 +198,9 @@ def corner_requests():
     R.append({"funcs": [_fn("f", ["y"], [["x", ["i"]]], ["i", "n0"], **{"int": [2], "ret": [2]}),
                         _fn("g", ["z"], [["y", ["i", "n0"]], ["x", ["i"]]], ["i", "n0"])],
               "inputs": [_arr("x", [3], "list")]})
+    R.append({"funcs": [_fn("f", ["y"], [["x", ["i"]]], ["n0", "i"], **{"int": [2], "ret": [2]}),
+                        _fn("g", ["z"], [["y", [None, "i"]]], ["i"])],
+              "inputs": [_arr("x", [3], "list")]})
     # scalar inputs, defaults, an output that nothing consumes, a single element axis
     R.append({"funcs": [_fn("f", ["y"], [["x", ["i"]]], ["i"], extra=["c"]), _single("t", ["s"], ["c"])],
               "inputs": [_arr("x", [1], "list"), ["c", "C"]]})
@@ -220,24 +222,7 @@ def corner_requests():
     return R
 
 
-def _internal_after_mapped(c):
-    """normalize_key(for_dump=True) is being repaired elsewhere: internal axes only after all mapped axes."""
-    for f in c["funcs"]:
-        sp = f.get("spec")
-        if sp and sp["i"]:
-            named = {a for _, ax in sp["i"] for a in ax if a}
-            seen_internal = False
-            for a in sp["o"][0][1]:
-                if a not in named:
-                    seen_internal = True
-                elif seen_internal:
-                    return False
-    return True
-
-
 def _in_scope(c):
-    if not _internal_after_mapped(c):
-        return False
     if mapgen.request_size(c) > 30:
         return False
     for _, v in c["inputs"]:
@@ -366,7 +351,7 @@ def _cases_of(req, li):
 
 
 def generate(rng, tier, mult):
-    n = (85 if tier == "quick" else 3000) * mult
+    n = (85 if tier == "quick" else 2200) * mult
     out = []
     for r in corner_requests():
         for li in (True, False):
@@ -407,7 +392,11 @@ def distribution(c):
     return {"kind": c["kind"], "li": c["li"], "nfuncs": len(c["funcs"]), "funcs": "+".join(kinds),
             "storage": c.get("storage"), "input_ranks": "".join(map(str, ranks)), "may_zip": _may_zip(c),
             "colon": any(a is None for f in c["funcs"] if f.get("spec") for _, ax in f["spec"]["i"] for a in ax),
-            "axis_conflict": _axis_conflict(c), "plain_rank": _plain_rank(c)}
+            "axis_conflict": _axis_conflict(c), "plain_rank": _plain_rank(c),
+            "internal_before_mapped": any(
+                f.get("ret") and f.get("spec") and f["spec"]["i"]
+                and f["spec"]["o"][0][1][0] not in {a for _, ax in f["spec"]["i"] for a in ax}
+                for f in c["funcs"])}
 
 
 def finding_id(c, impl_obs, kind):
